@@ -416,8 +416,8 @@ func checkC06(c *Ctx) {
 	}
 	runRefsMC(c, "fold", refsMCcfg("fold", ml+1, depth, []string{"a"}, false, false), nil)
 	// the same fold for option lists of any length: inductive invariant by Apalache (base + step)
-	apalacheCheck(c, "RefSelApa", "base", "--init=Init", "--inv=IndInv", "--length=0")
-	apalacheCheck(c, "RefSelApa", "step", "--init=IndInit", "--inv=IndInv", "--length=1")
+	apalacheProve(c, "RefSelApa", "base", 30*time.Minute, false, "--init=Init", "--inv=IndInv", "--length=0")
+	apalacheProve(c, "RefSelApa", "step", 30*time.Minute, false, "--init=IndInit", "--inv=IndInv", "--length=1")
 	gd := 3
 	groupSymsThorough = !quick(c)
 	runRefsMC(c, "groups", refsMCcfg("groups", ml, gd, []string{"a"}, false, false), nil)
